@@ -6,6 +6,7 @@ import (
 	"fmt"
 	"reflect"
 	"sort"
+	"strconv"
 	"strings"
 	"testing"
 	"testing/synctest"
@@ -59,13 +60,13 @@ func dumpValue(w *strings.Builder, v reflect.Value, withApp bool, depth int) {
 	}
 	switch v.Kind() {
 	case reflect.Bool:
-		fmt.Fprintf(w, "%v", v.Bool())
+		w.WriteString(strconv.FormatBool(v.Bool()))
 	case reflect.Int, reflect.Int8, reflect.Int16, reflect.Int32, reflect.Int64:
-		fmt.Fprintf(w, "%d", v.Int())
+		w.WriteString(strconv.FormatInt(v.Int(), 10))
 	case reflect.Uint, reflect.Uint8, reflect.Uint16, reflect.Uint32, reflect.Uint64:
-		fmt.Fprintf(w, "%d", v.Uint())
+		w.WriteString(strconv.FormatUint(v.Uint(), 10))
 	case reflect.String:
-		fmt.Fprintf(w, "%q", v.String())
+		w.WriteString(strconv.Quote(v.String()))
 	case reflect.Pointer, reflect.Interface:
 		if v.IsNil() {
 			w.WriteString("nil")
@@ -98,7 +99,11 @@ func dumpValue(w *strings.Builder, v reflect.Value, withApp bool, depth int) {
 	case reflect.Array:
 		if v.Type().Elem().Kind() == reflect.Uint64 && v.Len() == 4 {
 			// felt-like: print the four limbs compactly
-			fmt.Fprintf(w, "#%x.%x.%x.%x", v.Index(0).Uint(), v.Index(1).Uint(), v.Index(2).Uint(), v.Index(3).Uint())
+			w.WriteByte('#')
+			for i := 0; i < 4; i++ {
+				w.WriteString(strconv.FormatUint(v.Index(i).Uint(), 16))
+				w.WriteByte('.')
+			}
 			return
 		}
 		fallthrough
@@ -145,7 +150,7 @@ type refReplay struct {
 
 // replayRef feeds the durable entries (LoadAllEntries order) to a fresh real state machine that starts at
 // committed+1 with the Application incarnation inc; entries below the machine's height are not inputs any more.
-func replayRef(cfg *config, committed types.Height, inc int, entries []entry) refReplay {
+func replayRef(cfg *config, committed types.Height, inc int, entries []entry, dump bool) refReplay {
 	a := &app{Variant: cfg.App, Inc: inc}
 	m := tendermint.New[V, H, A](log.NewNopZapLogger(), addrS, a, validators{cfg.Role}, committed+1)
 	var rr refReplay
@@ -166,7 +171,10 @@ func replayRef(cfg *config, committed types.Height, inc int, entries []entry) re
 			}
 		}
 	}
-	rr.dump, rr.core, rr.height = dumpMachine(m), dumpCore(m), m.Height()
+	rr.height = m.Height()
+	if dump {
+		rr.dump, rr.core = dumpMachine(m), dumpCore(m)
+	}
 	return rr
 }
 
@@ -341,7 +349,7 @@ type postResult struct {
 // runPost boots a NEW process on the durable state of the crash record, optionally delivers the in-flight input
 // again, then the inputs `post`. Must be called inside a synctest bubble.
 func runPost(cfg *config, rec *crashRecord, post []sym, redeliver bool) (res postResult) {
-	w := &world{cfg: cfg, committed: rec.committed, cur: -1, inc: 1, net: rec.net}
+	w := &world{cfg: cfg, committed: rec.committed, cur: -1, inc: 1, net: rec.net, wantDump: len(post) == 0 && !redeliver}
 	if cfg.Real {
 		w.real = newRealDisk(rec.img)
 	} else {
@@ -406,6 +414,7 @@ type explorer struct {
 	infra    string
 	stop     func() bool
 	cut      bool
+	topDepth int // >0: do not descend to nodes of this depth (they are other jobs)
 }
 
 type foundViolation struct {
@@ -439,7 +448,7 @@ func (x *explorer) seen(key string) bool {
 
 func (x *explorer) detail(pre []sym, rec *crashRecord, post []sym, redel bool, extra map[string]any) func() map[string]any {
 	return func() map[string]any {
-	d := map[string]any{"config": x.cfg.String(), "inputs_before_crash": scriptString(pre)}
+	d := map[string]any{"config": x.cfg.String(), "inputs_before_crash": scriptString(pre), "replay": map[string]any{"cfg": x.cfg, "pre": symNames(pre), "post": symNames(post)}}
 	if rec != nil {
 		d["crash"] = fmt.Sprintf("%s (effect #%d of the run)", rec.where(), rec.spec.At)
 		d["effects_before_crash"] = traceStrings(rec.trace)
@@ -474,7 +483,7 @@ func sameEffects(a, b []effect) bool {
 // loggedBeforeVisible: everything the killed process had broadcast for a height that is not yet completely
 // committed must be derivable from the durable log by the same Application incarnation.
 func (x *explorer) loggedBeforeVisible(pre []sym, rec *crashRecord) {
-	rr := replayRef(x.cfg, rec.committed, 0, rec.entries)
+	rr := replayRef(x.cfg, rec.committed, 0, rec.entries, false)
 	have := map[bcast]bool{}
 	for _, b := range rr.bcasts {
 		have[b] = true
@@ -484,7 +493,7 @@ func (x *explorer) loggedBeforeVisible(pre []sym, rec *crashRecord) {
 			continue
 		}
 		if !have[b] {
-			key := fmt.Sprintf("visible-before-logged %s [crash %s]", effName(b.Kind), rec.where())
+			key := "visible-before-logged " + effName(b.Kind)
 			if x.seen(key) {
 				return
 			}
@@ -545,7 +554,7 @@ func (x *explorer) replayOracles(pre []sym, rec *crashRecord, pr *postResult) {
 		x.violate("recovered-driver-never-starts-listening", x.detail(pre, rec, nil, false, map[string]any{"error": fmt.Sprint(p.runErr)}))
 		return
 	}
-	rr := replayRef(x.cfg, rec.committed, 1, rec.entries)
+	rr := replayRef(x.cfg, rec.committed, 1, rec.entries, true)
 	if strings.Join(rr.fed, ",") != strings.Join(p.replayed, ",") {
 		x.violate("replayed-inputs-differ-from-durable-ones", x.detail(pre, rec, nil, false, map[string]any{"replayed": p.replayed, "durable_inputs": rr.fed}))
 	} else if rr.dump != p.dumpAfterRplay {
@@ -558,7 +567,7 @@ func (x *explorer) replayOracles(pre []sym, rec *crashRecord, pr *postResult) {
 			"reference_machine_height": uint64(rr.height), "commits_completed_during_replay": fmt.Sprint(p.replayCommits)}))
 	}
 	// the same consensus state the killed process had after processing exactly these inputs
-	r0 := replayRef(x.cfg, rec.committed, 0, rec.entries)
+	r0 := replayRef(x.cfg, rec.committed, 0, rec.entries, true)
 	if r0.core != p.coreAfterRplay {
 		own := false
 		for h := rec.committed + 1; h <= p.firstStart; h++ {
@@ -583,7 +592,7 @@ func (x *explorer) absorb(vs []violation, pre []sym, rec *crashRecord, post []sy
 // node explores the no-crash script `pre`, every crash point inside its LAST input (the earlier ones were
 // explored at the ancestors: a run killed at effect k does not depend on later inputs), and recurses.
 func (x *explorer) node(pre []sym) {
-	if x.infra != "" || x.cut {
+	if x.infra != "" || x.cut || (x.topDepth > 0 && len(pre) >= x.topDepth) {
 		return
 	}
 	if x.stop != nil && x.stop() {
@@ -743,9 +752,9 @@ func (x *explorer) post(g *group, pre, post []sym, redel bool) {
 }
 
 // exploreSubtree runs the search below `prefix` inside one synctest bubble.
-func exploreSubtree(t *testing.T, cfg *config, prefix []sym, stop func() bool) *explorer {
+func exploreSubtree(t *testing.T, cfg *config, prefix []sym, topDepth int, stop func() bool) *explorer {
 	x := newExplorer(cfg)
-	x.stop = stop
+	x.stop, x.topDepth = stop, topDepth
 	synctest.Test(t, func(*testing.T) {
 		x.node(prefix)
 	})
